@@ -103,6 +103,7 @@ struct Clause {
     label: Option<String>,
     props: String,
     loop_no: Option<usize>,
+    closure_no: Option<usize>,
     text: String,
 }
 
@@ -560,6 +561,23 @@ impl<'ast> Visit<'ast> for LoopFinder {
     fn visit_expr_closure(&mut self, _c: &'ast syn::ExprClosure) {}
 }
 
+struct ClosureFinder {
+    // (start of `|`, end of header incl. return type, body start, body end, body is block)
+    closures: Vec<(usize, usize, usize, usize, bool)>,
+}
+impl<'ast> Visit<'ast> for ClosureFinder {
+    fn visit_expr_closure(&mut self, c: &'ast syn::ExprClosure) {
+        let (s, _) = rng(c.or1_token.span());
+        let (_, mut e) = rng(c.or2_token.span());
+        if let syn::ReturnType::Type(_, t) = &c.output {
+            e = rng(t.span()).1;
+        }
+        let (bs, be) = rng(c.body.span());
+        self.closures.push((s, e, bs, be, matches!(&*c.body, syn::Expr::Block(_))));
+        syn::visit::visit_expr_closure(self, c);
+    }
+}
+
 fn marker(c: &Clause) -> String {
     if c.kind == "requires" && !c.props.contains("@callsite") {
         return String::new();
@@ -598,7 +616,7 @@ fn pass_x3(text: String, ex: &Extract, probes: bool, probe_ctr: &mut usize) -> R
     }
     // signature contracts
     let (body_open_s, body_open_e) = rng(f.block.brace_token.span.open());
-    let fn_clauses: Vec<&Clause> = ex.clauses.iter().filter(|c| c.loop_no.is_none()).collect();
+    let fn_clauses: Vec<&Clause> = ex.clauses.iter().filter(|c| c.loop_no.is_none() && c.closure_no.is_none()).collect();
     let mut sig_ins = String::new();
     if !fn_clauses.is_empty() {
         sig_ins.push('\n');
@@ -620,7 +638,7 @@ fn pass_x3(text: String, ex: &Extract, probes: bool, probe_ctr: &mut usize) -> R
         if !cs.is_empty() {
             let mut cs2: Vec<Clause> = vec![];
             for c in &cs {
-                cs2.push(Clause { kind: if c.kind == "ensures_loop" { "ensures".into() } else { c.kind.clone() }, label: c.label.clone(), props: c.props.clone(), loop_no: c.loop_no, text: c.text.clone() });
+                cs2.push(Clause { kind: if c.kind == "ensures_loop" { "ensures".into() } else { c.kind.clone() }, label: c.label.clone(), props: c.props.clone(), loop_no: c.loop_no, closure_no: None, text: c.text.clone() });
             }
             let refs: Vec<&Clause> = cs2.iter().collect();
             edits.push((*ls, *ls, format!("\n{}        ", clause_block(&refs, "        "))));
@@ -632,6 +650,38 @@ fn pass_x3(text: String, ex: &Extract, probes: bool, probe_ctr: &mut usize) -> R
         if probes {
             *probe_ctr += 1;
             edits.push((*le, *le, format!(" proof {{ if vx_probe({}) {{ assert(false); }} }} /*@P[{}|loop{}]*/\n", *probe_ctr, *probe_ctr, k + 1)));
+        }
+    }
+    // closure contracts (X3): `//@closure_sig[closure=K] |a: T| -> (r: U)` replaces the header of the K-th
+    // closure (type ascriptions only), `//@ensures[closure=K;label|props] e` gives its postcondition
+    let mut cf = ClosureFinder { closures: vec![] };
+    cf.visit_block(&f.block);
+    let max_cl = ex.clauses.iter().filter_map(|c| c.closure_no).max().unwrap_or(0);
+    if max_cl > cf.closures.len() {
+        return fail(format!("contract names closure {} but the function has {} closures", max_cl, cf.closures.len()));
+    }
+    for (k, (hs, he, bs, be, is_block)) in cf.closures.iter().enumerate() {
+        let cs: Vec<&Clause> = ex.clauses.iter().filter(|c| c.closure_no == Some(k + 1)).collect();
+        if cs.is_empty() {
+            continue;
+        }
+        let sig = cs.iter().find(|c| c.kind == "closure_sig").ok_or(Fail(format!("closure {} has clauses but no closure_sig", k + 1)))?;
+        let mut hdr = sig.text.trim().to_string();
+        for kind in ["requires", "ensures"] {
+            let kc: Vec<&&Clause> = cs.iter().filter(|c| c.kind == kind).collect();
+            if kc.is_empty() {
+                continue;
+            }
+            hdr.push_str(&format!("\n            {}", kind));
+            for c in kc {
+                hdr.push_str(&format!("\n                {},{}", c.text.trim().trim_end_matches(','), marker(c)));
+            }
+        }
+        hdr.push_str("\n            ");
+        edits.push((*hs, *he, hdr));
+        if !*is_block {
+            edits.push((*bs, *bs, "{ ".to_string()));
+            edits.push((*be, *be, " }".to_string()));
         }
     }
     if probes {
@@ -917,7 +967,7 @@ fn do_extract(repo: &str, ex: &Extract, probes: bool, probe_ctr: &mut usize) -> 
     let ncl = ex.clauses.len();
     let t = if sigonly {
         // labels of an assumed contract are not obligations of this unit
-        let ex2 = Extract { kv: ex.kv.clone(), clauses: ex.clauses.iter().filter(|c| c.loop_no.is_none()).map(|c| if c.kind == "requires" { Clause { kind: c.kind.clone(), label: c.label.clone(), props: format!("{}@callsite", c.props), loop_no: None, text: c.text.clone() } } else { Clause { kind: c.kind.clone(), label: None, props: String::new(), loop_no: None, text: c.text.clone() } }).collect(), fnattrs: vec![], tmpl_line: ex.tmpl_line };
+        let ex2 = Extract { kv: ex.kv.clone(), clauses: ex.clauses.iter().filter(|c| c.loop_no.is_none() && c.closure_no.is_none()).map(|c| if c.kind == "requires" { Clause { kind: c.kind.clone(), label: c.label.clone(), props: format!("{}@callsite", c.props), loop_no: None, closure_no: None, text: c.text.clone() } } else { Clause { kind: c.kind.clone(), label: None, props: String::new(), loop_no: None, closure_no: None, text: c.text.clone() } }).collect(), fnattrs: vec![], tmpl_line: ex.tmpl_line };
         pass_x3(t, &ex2, false, probe_ctr)?
     } else {
         pass_x3(t, ex, probes, probe_ctr)?
@@ -1049,13 +1099,13 @@ fn run() -> Result<(), Fail> {
                     continue;
                 }
                 let mut matched = false;
-                for kind in ["requires", "ensures_loop", "ensures", "invariant_except_break", "invariant", "decreases"] {
+                for kind in ["requires", "ensures_loop", "ensures", "invariant_except_break", "invariant", "decreases", "closure_sig"] {
                     if let Some(r) = d.strip_prefix(kind) {
                         if !(r.starts_with('[') || r.starts_with(' ')) {
                             continue;
                         }
                         let (opts, label, props, rest) = parse_bracket(r);
-                        ex.clauses.push(Clause { kind: kind.to_string(), label, props, loop_no: opts.get("loop").and_then(|x| x.parse().ok()), text: rest.trim().to_string() });
+                        ex.clauses.push(Clause { kind: kind.to_string(), label, props, loop_no: opts.get("loop").and_then(|x| x.parse().ok()), closure_no: opts.get("closure").and_then(|x| x.parse().ok()), text: rest.trim().to_string() });
                         matched = true;
                         break;
                     }
